@@ -313,6 +313,35 @@ func (c *codegen) emitUpdateIndexExpr(n *ast.IndexExpr, update func()) {
 	emit.Opcodes(c.prog.BinWriter, opcode.SETITEM)
 }
 
+// emitUpdateSelectorExpr emits code for `x.f op= value` and `x.f++` with
+// a structure field x.f: x is evaluated once, update turns the current value of
+// the field on top of the stack into the new one. It returns false if n is not
+// a field of a structure (nothing is emitted then).
+func (c *codegen) emitUpdateSelectorExpr(n *ast.SelectorExpr, update func()) bool {
+	typ := c.typeOf(n.X)
+	if c.isInvalidType(typ) {
+		// Other package global variable.
+		return false
+	}
+	strct, ok := getStruct(typ)
+	if !ok {
+		return false
+	}
+	path := pathToField(strct, n.Sel.Name)
+	if path == nil {
+		return false
+	}
+	ast.Walk(c, storedStruct(n))
+	c.emitLoadField(path[1:])
+	emit.Opcodes(c.prog.BinWriter, opcode.DUP)
+	emit.Int(c.prog.BinWriter, int64(path[0]))
+	emit.Opcodes(c.prog.BinWriter, opcode.PICKITEM)
+	update()
+	emit.Int(c.prog.BinWriter, int64(path[0]))
+	emit.Opcodes(c.prog.BinWriter, opcode.SWAP, opcode.SETITEM)
+	return true
+}
+
 // isDistinctIdents checks whether all the expressions are plain identifiers
 // and no identifier except the blank one is there twice.
 func isDistinctIdents(exprs []ast.Expr) bool {
@@ -1023,15 +1052,21 @@ func (c *codegen) Visit(node ast.Node) ast.Visitor {
 		if isAssignOp {
 			c.saveExprSequencePoint(n.Rhs[0])
 			// RHS can contain exactly one expression, thus there is no need to iterate.
-			if idx, ok := n.Lhs[0].(*ast.IndexExpr); ok {
-				c.emitUpdateIndexExpr(idx, func() {
-					ast.Walk(c, n.Rhs[0])
-					c.emitShiftCountLimit(n.Tok, n.Rhs[0])
-					c.emitToken(n.Tok, c.typeOf(n.Rhs[0]))
-					// The sequence point includes an assignment sign.
-					c.saveSequencePoint(n.Lhs[0].Pos(), n.Rhs[0].Pos())
-				})
+			update := func() {
+				ast.Walk(c, n.Rhs[0])
+				c.emitShiftCountLimit(n.Tok, n.Rhs[0])
+				c.emitToken(n.Tok, c.typeOf(n.Rhs[0]))
+				// The sequence point includes an assignment sign.
+				c.saveSequencePoint(n.Lhs[0].Pos(), n.Rhs[0].Pos())
+			}
+			switch t := n.Lhs[0].(type) {
+			case *ast.IndexExpr:
+				c.emitUpdateIndexExpr(t, update)
 				return nil
+			case *ast.SelectorExpr:
+				if c.emitUpdateSelectorExpr(t, update) {
+					return nil
+				}
 			}
 			ast.Walk(c, n.Lhs[0])
 			ast.Walk(c, n.Rhs[0])
@@ -1685,11 +1720,17 @@ func (c *codegen) Visit(node ast.Node) ast.Visitor {
 		return nil
 
 	case *ast.IncDecStmt:
-		if idx, ok := n.X.(*ast.IndexExpr); ok {
-			c.emitUpdateIndexExpr(idx, func() {
-				c.emitToken(n.Tok, c.typeOf(n.X))
-			})
+		update := func() {
+			c.emitToken(n.Tok, c.typeOf(n.X))
+		}
+		switch t := n.X.(type) {
+		case *ast.IndexExpr:
+			c.emitUpdateIndexExpr(t, update)
 			return nil
+		case *ast.SelectorExpr:
+			if c.emitUpdateSelectorExpr(t, update) {
+				return nil
+			}
 		}
 		ast.Walk(c, n.X)
 		c.emitToken(n.Tok, c.typeOf(n.X))
